@@ -47,7 +47,8 @@ def configs(tier, seed):
     per = 12 if tier == "quick" else 60
     for fam in FAMILIES:
         mod = importlib.import_module(f"vt.props.{fam}")
-        cfgs = [c for c in mod.configs(tier, seed) if "miter" not in c and not c.get("table") and c.get("kind") != "eventmap"]
+        cfgs = [c for c in mod.configs(tier, seed) if "miter" not in c and not c.get("table") and not c.get("flat")
+                and not c.get("inreg") and c.get("kind") != "eventmap"]
         rnd2 = random.Random(seed + hash(fam) % 1000)
         pick = cfgs if len(cfgs) <= per else rnd2.sample(cfgs, per)
         for c in pick:
